@@ -17,7 +17,9 @@ CLAIMED = {
             "bounded-exhaustive enumeration of message content, differential against a reference RFC 6733 encoder",
             "Complete products over explicit alphabets (header fields, all 256 AVP flag bytes, data lengths "
             "0..9, every dictionary class x every domain value, all AVP sequences <= 2/3 over a 12-letter "
-            "alphabet x 4 construction paths, Grouped chains to depth 3/4, typed commands) are built through "
+            "alphabet x 8 construction paths, Grouped chains to depth 3/4, every sequence of <= 3/4 container operations "
+            "on a Grouped AVP (append, extend, list assignment, cleanup, pop, item assignment) over members that share "
+            "bytes with a nested member or have an equal twin, typed commands) are built through "
             "the public API and their bytes compared with an independent encoder fed the same content.",
             "Trusts vk/ref/refcodec.py and the frozen dictionary vk/ref/refdict.json; values outside the "
             "alphabets are not covered; constructors that reject an in-domain value are counted, not judged.",
@@ -35,7 +37,9 @@ CLAIMED = {
             "bounded-exhaustive enumeration of classes x in/out-of-domain values against the frozen dictionary",
             "Every dictionary class x every value of in-domain and out-of-domain alphabets: construction "
             "raises or dumps a well-formed encoding of the value; plus function-ness of (vendor, code), wire "
-            "identity vs the frozen dictionary, decode dispatch, docs and IANA cross-reading.",
+            "identity vs the frozen dictionary, decode dispatch (each code under Vendor-IDs the dictionary does not define for "
+            "it decodes as a generic AVP), Grouped lists with a foreign-vendor impostor in a mandatory member's place, "
+            "timezone-aware instants, docs and IANA cross-reading.",
             "Default flags in refdict are frozen from the pinned tree (the published list has no flags); any "
             "exception counts as rejection; UTF-8 validity and negative Unsigned64 are not judged.",
             "DESIGN.md 4/C10"),
@@ -45,7 +49,7 @@ CLAIMED = {
             "replacements, typed-data faults for every dictionary class, garbage strings, through the three load "
             "entry points under a sys.monitoring line counter with a frozen bound 150000 + 5300 L + 0.2 L^2; "
             "thorough adds all 2^24 values on two length fields of a DWR.",
-            "Live part: each of 18 fault classes injected into a real node in 5 connection states on the virtual runtime "
+            "Decoder inputs also run under a processor-time bound (regular expressions that backtrack spend their time inside one line). Live part: each of 26 fault classes (incl. well-framed application requests with non-UTF-8 text AVPs) injected into a real node in 5 connection states on the virtual runtime "
             "(d = 0 all, d <= 1 on four), then send_message()/close() must return, no lock may be stuck, workers survive "
             "or the connection is closed cleanly. Step = one bromelia source line; which library error is raised is not "
             "constrained.",
@@ -56,7 +60,8 @@ CLAIMED = {
             "peer delivers message sequences of length 1..2 (3) chunk by chunk: every 1-cut at byte granularity and "
             "byte-at-a-time at d = 0 in both roles, curated (sequence, cut, role) triples at d <= 1 (quick 6, thorough "
             "~70) and two at d <= 2; oracle: get_message() returns exactly the application messages sent, once, whole, "
-            "in order; emitted DWAs follow the DWR order; no deadlock/livelock.",
+            "in order; emitted DWAs follow the DWR order; no deadlock/livelock. The SCTP transport classes run the same "
+            "scenario family over a fake pysctp socket (d = 0 over structural cuts, one scenario at d <= 1, thorough three).",
             "Line-level atomicity at shared-attribute lines + every synchronisation/socket/selector operation; fake "
             "socket/selector semantics of Linux loopback; handshake is a deterministic prefix; bounded deviations.",
             "DESIGN.md 4/C04"),
@@ -66,14 +71,17 @@ CLAIMED = {
             "send_messages) x inbound traffic {none, DWR, application message} x send-buffer limit {default, 96}; the "
             "fake socket's send() answers {all, 1 byte, all-but-1} are environment choice points; every schedule / "
             "answer pattern with <= 1 deviation (thorough <= 2 for k = 1); oracle: the bytes accepted by the socket are "
-            "whole submitted messages, each exactly once, per-submitter order kept, nothing left queued.",
+            "whole submitted messages, each exactly once, per-submitter order kept, nothing left queued. Submitted "
+            "message forms: DiameterRequest/DiameterAnswer objects everywhere, loaded / converted / constructed generic "
+            "DiameterMessage objects at d = 0; the SCTP transport classes over a fake pysctp socket (3 scenarios, thorough 7).",
             "Same atomicity and fake-network assumptions as C04; DWAs/DWRs of the base protocol may appear between "
             "whole messages; quiescence judged after 8 idle virtual seconds.",
             "DESIGN.md 4/C05"),
     "C06": ("HIST", "model_checking",
             "explicit-state breadth-first search over event histories replayed on the real node under a controlled scheduler",
             "BFS over histories of peer/local events (valid and invalid CER/CEA/DWR/DWA/DPR/DPA, application traffic, "
-            "misaddressed requests, back-to-back requests in one read, connect ack/refusal, close, send, peer disconnect, "
+            "misaddressed requests, T-flagged base requests, identities padded with foreign-vendor AVPs, back-to-back requests "
+            "in one read (also right behind the CER), connect ack/refusal, close, send, peer disconnect at and inside a message boundary, "
             "idle watchdog periods, one restart) for both roles, 0..2 applications and two watchdog settings, to closure "
             "of the canonical state space or depth 12/14; each transition replays the whole history on a fresh real "
             "Diameter object on the virtual runtime (d = 0) and is judged by the reference relation of DESIGN.md "
@@ -83,20 +91,24 @@ CLAIMED = {
             "the relation says so.",
             "DESIGN.md 4/C06 + Appendix A"),
     "C07": ("HIST", "model_checking",
-            "same explicit-state search as C06, answer-matching clauses",
+            "same explicit-state search as C06, answer-matching clauses, plus stateless schedule exploration of two node objects in one process",
             "In every explored history every emitted CEA/DWA/DPA is matched to exactly one request received in that "
             "step (command code, R clear, Hop-by-Hop, End-to-End from a boundary alphabet), carries the local origin "
             "and a Result-Code, and answers leave in request order, including two base requests in one read and a "
-            "connection reopened with the same node object.",
-            "Same assumptions as C06; identifiers are opaque tokens (data independence).",
+            "connection reopened with the same node object. SCHED part: two node objects with the same local identity "
+            "receive a DWR / a DPR each at the same moment, every schedule with <= 1 deviation (thorough one scenario at "
+            "<= 2): each connection carries exactly the answer to its own request.",
+            "Same assumptions as C06; identifiers are opaque tokens (data independence); a DPA lost because the transport "
+            "thread was kept off the CPU for longer than the node waits before closing is not judged here.",
             "DESIGN.md 4/C07"),
     "C08": ("SCHED", "model_checking",
             "stateless deviation-bounded schedule exploration of every (termination cause, life point, role) combination",
             "Real node taken to 10 life points (start() itself, connecting, awaiting the CEA, accepted-before-CER, four Open "
-            "situations incl. an application thread that keeps sending, Closing) x 12 termination causes (local close, "
-            "early close with a willing / silent peer, close with a silent peer, DPR, DPA, FIN, RST, refused, non-CEA), "
-            "both roles (about 50 combinations): all at d = 0, eleven at d <= 1 in quick; all at d <= 1 and two at "
-            "d <= 2 in thorough; at quiescence state "
+            "situations incl. an application thread that keeps sending, Closing) x 14 termination causes (local close, "
+            "early close with a willing / silent peer, close with a silent peer, close racing with the CEA, DPR, DPA, FIN, "
+            "FIN in the middle of a message, RST, refused, non-CEA), both roles (about 60 combinations) over TCP and again "
+            "over the SCTP transport classes (fake pysctp socket): all at d = 0, fifteen at d <= 1 in quick; all TCP ones at "
+            "d <= 1, four SCTP ones at d <= 1 and two at d <= 2 in thorough; at quiescence state "
             "Closed, sockets closed and de-registered, all worker threads gone, blocked get_message() returned, no lock "
             "held, and in the same execution a second start() with a second scripted handshake reaches Open.",
             "Same scheduling-point and fake-network assumptions as C04/C05; threads that end by an exception during the "
@@ -105,11 +117,13 @@ CLAIMED = {
     "C09": ("ENUM", "exploration",
             "bounded-exhaustive enumeration of constructor-argument subsets against a hand-written command table",
             "All 50 typed classes (discovered by introspection) x subsets of omittable arguments (sizes 0,1,2,n "
-            "quick; every subset for <= 12 arguments thorough) x value variants x extra keyword AVPs x omission "
+            "quick; every subset for <= 12 arguments thorough) x value variants x extra keyword AVPs x ready-made AVP "
+            "objects for declared arguments without a table entry x omission "
             "of each mandatory argument; header, flags, AVP order/class/value, mandatory counts, Message Length, "
             "reference and library round trip, request/answer pairing.",
             "Trusts vk/ref/refcmds.json (written from the RFC/TS texts) and refdict; argument independence "
-            "bounds the subset sizes for classes with > 12 optionals; defaults are checked structurally only.",
+            "bounds the subset sizes for classes with > 12 optionals; defaults are checked structurally only; RFC 6733 ASA/RAA "
+            "are judged as built (round trip) and again after the caller assigned the Application-ID.",
             "DESIGN.md 4/C09"),
     "C19": ("ENUM", "exploration",
             "bounded-exhaustive enumeration of configuration dictionaries and YAML specs",
@@ -117,8 +131,8 @@ CLAIMED = {
             "132 ordered first/second key choices, an unknown key at every position, two entry points; all YAML "
             "spec lists of length <= 2/3 over a 6-entry alphabet: accepted => every Connection field equals the "
             "configured value and the caller's dict is untouched, else InvalidConfigKey/InvalidConfigValue.",
-            "Booleans, non-string IP values and incomplete dictionaries are outside the statement; a falsy "
-            "TRANSPORT_TYPE becoming TCP in Diameter(config) is the documented default.",
+            "Booleans, non-string IP values and incomplete dictionaries are outside the statement; an empty YAML "
+            "transport_type counts as omitted (TCP by default).",
             "DESIGN.md 4/C19"),
     "C20": ("ENUM", "exploration",
             "bounded-exhaustive enumeration of (word, bit), address literals and instants against integer arithmetic",
@@ -168,7 +182,9 @@ CLAIMED = {
             "1..2 (3) callers and a scripted peer answering in every order: every schedule with <= 1 (quick) / <= 2 "
             "(thorough, k = 1 and eager k = 2) deviations from the fair default scheduler, where a deviation is a "
             "non-default thread choice at a synchronisation operation or shared-attribute source line, or a long "
-            "stall of the running thread; oracle: every caller returns its own answer, none twice, none never.",
+            "stall of the running thread; oracle: every caller returns its own answer, none twice, none never. Also: a caller "
+            "that sends the same request again once answered (peer quick / slow), two connections (two workers) with the "
+            "same Hop-by-Hop identifier outstanding on both, and a connection that ends right behind its answer.",
             "In-process Worker with a stand-in manager and a stub connection below it; line-level atomicity; bounded "
             "number of deviations; liveness under the fair continuation after the last deviation.",
             "DESIGN.md 4/C14"),
@@ -187,7 +203,8 @@ CLAIMED = {
             "BFS over histories of <= 7 (quick) / <= 9 (thorough) operations from a 14-operation alphabet (Session-Id "
             "AVPs for two identities, typed messages, bulk origin updates keeping/switching identity, explicit "
             "session_id updates, Acct-Multi-Session-Id, bytes pass-through, clock +1 s): all generated ids pairwise "
-            "distinct, RFC 6733 grammar, identity prefix, bytes unchanged. SCHED part: two (thorough three) threads "
+            "distinct, RFC 6733 grammar, identity prefix, bytes unchanged; 15 bytes values x 6 ways of supplying a Session-Id as "
+            "bytes. SCHED part (also from the generator state exactly as the import left it: the first ids of the process): two (thorough three) threads "
             "generating at once (AVPs for one or two identities, a typed message, a bulk origin update), every schedule "
             "with <= 2 deviations: ids pairwise distinct.",
             "datetime.utcnow substituted in bromelia._internal_utils; depth-bounded (the counter makes the space "
